@@ -152,6 +152,24 @@ func TestC08Cipher(t *testing.T) {
 			tap.mu.Unlock()
 			recvN[d]++
 		}
+		// the later sessions are bursty: each side writes several hundred
+		// records before the other side reads any, so both ends cross a key
+		// rotation of their sending direction while the peer's records of
+		// the previous key generation are still unread
+		bursty := s >= sessions/2
+		for bursty && (recvN["c2s"] < perDir || recvN["s2c"] < perDir) {
+			for _, e := range []end{cEnd, sEnd} {
+				for k := 350 + r.Intn(400); k > 0 && sentN[e.dir] < perDir; k-- {
+					write(e)
+				}
+			}
+			for recvN["c2s"] < sentN["c2s"] {
+				read(sEnd, "c2s")
+			}
+			for recvN["s2c"] < sentN["s2c"] {
+				read(cEnd, "s2c")
+			}
+		}
 		for sentN["c2s"] < perDir || sentN["s2c"] < perDir || recvN["c2s"] < perDir || recvN["s2c"] < perDir {
 			switch x := r.Intn(4); {
 			case x == 0 && sentN["c2s"] < perDir:
